@@ -308,7 +308,7 @@ fn c02_extras(r: &mut StdRng, out: &mut Out, n: usize) {
             let err = match res {
                 Ok(Ok(())) => "none".to_string(),
                 Ok(Err(e)) => errname(&e).to_string(),
-                Err(p) => format!("panic:{p}"),
+                Err(_p) => "panic".to_string(),
             };
             out.ev(json!({"op":"seqhdr","map":map as u8,"n":jb(&n.to_le_bytes()),"bytes":jb(&rec.0.borrow()),"err":err}));
         }
@@ -317,7 +317,7 @@ fn c02_extras(r: &mut StdRng, out: &mut Out, n: usize) {
         let err = match res {
             Ok(Ok(())) => "none".to_string(),
             Ok(Err(e)) => errname(&e).to_string(),
-            Err(p) => format!("panic:{p}"),
+            Err(_p) => "panic".to_string(),
         };
         out.ev(json!({"op":"sequnk","map":map as u8,"bytes":jb(&rec.0.borrow()),"err":err}));
     }
